@@ -6,4 +6,6 @@ import (
 	"verif/internal/harness"
 )
 
-func TestProps(t *testing.T) { harness.Main(t, "C18", WindowProp, ShardsProp, RouteProp, SeqProp, ReconfProp) }
+func TestProps(t *testing.T) {
+	harness.Main(t, "C18", WindowProp, ShardsProp, RouteProp, SeqProp, ReconfProp)
+}
